@@ -183,13 +183,12 @@ func VerifC01Race() {
 			continue
 		}
 		legit := !r.wants(g0)
-		gi := g0.Clone()
+		// every state the key can have been in while the request was in flight: the initial state
+		// followed by any sequence of the other clients' successes
+		var others []*vReq
 		for j, o := range reqs {
 			if j != i && o.ok && !o.err {
-				o.apply(gi)
-				if !r.wants(gi) {
-					legit = true
-				}
+				others = append(others, o)
 				if r.kind == 2 && r.exp == 0 && string(o.key) == string(r.key) {
 					// an unguarded delete is executed as "delete the version I read": a concurrent
 					// successful write to the key changes it away from that implicit expectation
@@ -197,6 +196,23 @@ func VerifC01Race() {
 				}
 			}
 		}
+		var walk func(g *zzmodel.Ghost, used []bool)
+		walk = func(g *zzmodel.Ghost, used []bool) {
+			for k, o := range others {
+				if used[k] {
+					continue
+				}
+				gn := g.Clone()
+				o.apply(gn)
+				if !r.wants(gn) {
+					legit = true
+				}
+				used[k] = true
+				walk(gn, used)
+				used[k] = false
+			}
+		}
+		walk(g0, make([]bool, len(others)))
 		if r.kind == 2 && !g0.Live(r.key) {
 			legit = true // delete of an absent key reports Succeeded=false without error
 		}
